@@ -421,7 +421,7 @@ func runGoFn(c *lib.Ctx) error {
 		err error
 	}
 	results := make([]res, len(scopes))
-	lib.Parallel(len(scopes), 7, func(i int) {
+	lib.Parallel(len(scopes), 4, func(i int) {
 		r, err := c.TLC("MCGoFnCall/"+scopes[i].Name, lib.TLCRun{Dir: dir, Module: "MCGoFnCall", Workers: 1, Timeout: 12 * time.Minute, HeapGB: 4,
 			Files: map[string][]byte{"MCGoFnCall.cfg": scopes[i].cfg()}})
 		results[i] = res{r, err}
